@@ -249,6 +249,152 @@ theorem sequence_distinct (C : Ciphers) (k : PrivKey) (hk : saltOf k < modulus k
       | err e => rw [hei] at hi; cases hi
       | panic w => rw [hei] at hi; cases hi
 
+/-! ## Session level: receives (and timeouts, which touch nothing) between the sends -/
+
+/-- **C14.decrypt_keeps_salt**: decrypting a reply leaves the salt counter alone -/
+theorem decrypt_keeps_salt (C : Ciphers) (k k' : PrivKey) (ct : Bytes) (usm : Usm) (sp : ScopedPdu)
+    (h : k.decrypt C ct usm = .ok (sp, k')) : saltOf k' = saltOf k ∧ modulus k' = modulus k := by
+  cases k with
+  | noPriv => simp [PrivKey.decrypt] at h
+  | des key preIv salt buf =>
+    simp only [PrivKey.decrypt] at h
+    split at h
+    · cases h
+    · obtain ⟨plain, _, h⟩ := Outcome.bind_eq_ok h
+      obtain ⟨x, _, h⟩ := Outcome.bind_eq_ok h
+      simp only [Outcome.pure_eq, Outcome.ok.injEq, Prod.mk.injEq] at h
+      rw [← h.2]; exact ⟨rfl, rfl⟩
+  | aes key salt buf =>
+    simp only [PrivKey.decrypt] at h
+    split at h
+    · cases h
+    · split at h
+      · cases h
+      · obtain ⟨plain, _, h⟩ := Outcome.bind_eq_ok h
+        obtain ⟨x, _, h⟩ := Outcome.bind_eq_ok h
+        simp only [Outcome.pure_eq, Outcome.ok.injEq, Prod.mk.injEq] at h
+        rw [← h.2]; exact ⟨rfl, rfl⟩
+
+/-- receiving any v3 message (accepted, skipped, undecryptable) leaves the counter alone -/
+theorem unwrap_keeps_salt (C : Ciphers) (s : V3Session) (m : V3Msg) :
+    saltOf (unwrapV3 C s m).1.privKey = saltOf s.privKey ∧
+    modulus (unwrapV3 C s m).1.privKey = modulus s.privKey := by
+  unfold unwrapV3
+  cases hd : m.data with
+  | plaintext x =>
+    simp only
+    split
+    · exact ⟨rfl, rfl⟩
+    · split <;> exact ⟨rfl, rfl⟩
+  | encrypted ct =>
+    simp only
+    cases hk : s.privKey.decrypt C ct m.usm with
+    | ok r =>
+      obtain ⟨x, pk'⟩ := r
+      have := decrypt_keeps_salt C s.privKey pk' ct m.usm x hk
+      simp only
+      split
+      · exact this
+      · split <;> exact this
+    | err e => exact ⟨rfl, rfl⟩
+    | panic w => exact ⟨rfl, rfl⟩
+
+/-- every request of a session with a privacy key advances the counter by exactly one, whether or
+not the request could be serialised -/
+theorem push_steps_salt (D : Digests) (C : Ciphers) (s : V3Session) (pdu : Pdu) (rawMsg : Int) (buf : Buf)
+    (hp : s.privKey.hasPriv = true) :
+    saltOf (pushPduV3 D C s pdu rawMsg buf).1.privKey = (saltOf s.privKey + 1) % modulus s.privKey ∧
+    modulus (pushPduV3 D C s pdu rawMsg buf).1.privKey = modulus s.privKey := by
+  have hc := counter_step C s.privKey ⟨s.engineId, pdu⟩ (asU32 s.engineBoots) (asU32 s.engineTime)
+  unfold pushPduV3
+  simp only [hp, if_true]
+  cases he : s.privKey.encrypt C ⟨s.engineId, pdu⟩ (asU32 s.engineBoots) (asU32 s.engineTime) with
+  | mk pk' r =>
+    rw [he] at hc
+    cases r with
+    | ok v => obtain ⟨ct, pp⟩ := v; exact hc
+    | err e => exact hc
+    | panic w => exact hc
+
+/-- what happens to a v3 session: it sends a request, or a message arrives -/
+inductive SEv where
+  | push (pdu : Pdu) (rawMsg : Int) (buf : Buf)
+  | recv (m : V3Msg)
+
+def srun (D : Digests) (C : Ciphers) : V3Session → List SEv → V3Session
+  | s, [] => s
+  | s, .push pdu rawMsg buf :: rest => srun D C (pushPduV3 D C s pdu rawMsg buf).1 rest
+  | s, .recv m :: rest => srun D C (unwrapV3 C s m).1 rest
+
+def pushes : List SEv → Nat
+  | [] => 0
+  | .push _ _ _ :: rest => pushes rest + 1
+  | .recv _ :: rest => pushes rest
+
+theorem hasPriv_of_modulus (k k' : PrivKey) (h : modulus k' = modulus k) (hp : k.hasPriv = true) :
+    k'.hasPriv = true := by
+  cases k <;> cases k' <;> simp_all [modulus, PrivKey.hasPriv]
+
+/-- **C14.session_counter**: in any history of a session — requests, replies accepted or skipped,
+undecryptable datagrams, timeouts — the salt counter is the installed value plus the number of
+requests sent so far: receiving never rewinds or reuses it -/
+theorem session_counter (D : Digests) (C : Ciphers) : ∀ (evs : List SEv) (s : V3Session),
+    s.privKey.hasPriv = true → saltOf s.privKey < modulus s.privKey →
+    saltOf (srun D C s evs).privKey = (saltOf s.privKey + pushes evs) % modulus s.privKey ∧
+    modulus (srun D C s evs).privKey = modulus s.privKey
+  | [], s, _, hk => by
+    simp only [srun, pushes, Nat.add_zero]
+    exact ⟨(Nat.mod_eq_of_lt hk).symm, trivial⟩
+  | .push pdu rawMsg buf :: rest, s, hp, hk => by
+    obtain ⟨h1, h2⟩ := push_steps_salt D C s pdu rawMsg buf hp
+    have hpos : 0 < modulus s.privKey := by omega
+    obtain ⟨i1, i2⟩ := session_counter D C rest (pushPduV3 D C s pdu rawMsg buf).1
+      (hasPriv_of_modulus _ _ h2 hp) (by rw [h1, h2]; exact Nat.mod_lt _ hpos)
+    simp only [srun, pushes]
+    rw [i1, i2, h1, h2]
+    refine ⟨?_, rfl⟩
+    rw [Nat.add_mod, Nat.mod_mod, ← Nat.add_mod]
+    congr 1; omega
+  | .recv m :: rest, s, hp, hk => by
+    obtain ⟨h1, h2⟩ := unwrap_keeps_salt C s m
+    obtain ⟨i1, i2⟩ := session_counter D C rest (unwrapV3 C s m).1
+      (hasPriv_of_modulus _ _ h2 hp) (by rw [h1, h2]; exact hk)
+    simp only [srun, pushes]
+    rw [i1, i2, h1, h2]
+    exact ⟨rfl, rfl⟩
+
+/-- **C14.session_distinct**: the counters in force at two different requests of one session differ,
+whatever was received in between, as long as fewer than 2^32 (DES) / 2^64 (AES) requests separate them -/
+theorem session_distinct (D : Digests) (C : Ciphers) (s : V3Session) (h1 h2 : List SEv)
+    (hp : s.privKey.hasPriv = true) (hk : saltOf s.privKey < modulus s.privKey)
+    (hpos : 0 < pushes h2) (hlt : pushes h2 < modulus s.privKey) :
+    saltOf (srun D C s (h1 ++ h2)).privKey ≠ saltOf (srun D C s h1).privKey := by
+  have hrun : ∀ (a b : List SEv) (t : V3Session), srun D C t (a ++ b) = srun D C (srun D C t a) b := by
+    intro a
+    induction a with
+    | nil => intro b t; rfl
+    | cons e a ih => intro b t; cases e <;> simp only [List.cons_append, srun, ih]
+  have hpu : ∀ (a b : List SEv), pushes (a ++ b) = pushes a + pushes b := by
+    intro a
+    induction a with
+    | nil => intro b; simp [pushes]
+    | cons e a ih => intro b; cases e <;> simp only [List.cons_append, pushes, ih] <;> omega
+  obtain ⟨a1, _⟩ := session_counter D C h1 s hp hk
+  obtain ⟨b1, _⟩ := session_counter D C (h1 ++ h2) s hp hk
+  rw [a1, b1, hpu]
+  intro heq
+  exact no_repeat (saltOf s.privKey) (modulus s.privKey) (pushes h1) (pushes h1 + pushes h2) (by omega)
+    (by omega) (by omega) (by simpa [Nat.add_assoc] using heq.symm)
+
+/-- **C14.params_length**: msgPrivacyParameters of an encrypted request are always 8 octets -/
+theorem params_length (C : Ciphers) (k : PrivKey) (s : ScopedPdu) (boots time : Nat) (ct pp : Bytes)
+    (h : (k.encrypt C s boots time).2 = .ok (ct, pp)) : pp.length = 8 := by
+  obtain ⟨hd, ha⟩ := salt_sent C k s boots time ct pp h
+  cases k with
+  | noPriv => simp [PrivKey.encrypt] at h
+  | des key preIv salt buf => rw [hd key preIv salt buf rfl]; simp [beBytes_length]
+  | aes key salt buf => rw [ha key salt buf rfl]; simp [beBytes_length]
+
 /-- **C14.flags**: a session with a privacy key sets the priv flag and sends msgData as an OCTET
 STRING holding the ciphertext -/
 theorem flags (s : V3Session) (fr : Bool) (pp ct : Bytes) :
